@@ -216,4 +216,21 @@ extern "C" std::istream *__wrap__ZNSi4readEPcl(std::istream *self, char *s, long
     sim::yield_point(sim::Y_READ_POST);
     return r;
 }
+// the same seam for std::istream::readsome (a library that switches read primitive must stay under the budgets)
+extern "C" long __real__ZNSi8readsomeEPcl(std::istream *, char *, long);
+extern "C" long __wrap__ZNSi8readsomeEPcl(std::istream *self, char *s, long n) {
+    sim::t_reads++;
+    sim::t_rbytes += static_cast<uint64_t>(n > 0 ? n : 0);
+    sim::BudgetState &b = sim::budget_state();
+    if (b.armed) {
+        b.reads++;
+        b.bytes += static_cast<uint64_t>(n > 0 ? n : 0);
+        if (b.reads > b.max_reads) { b.tripped = true; b.kind = "reads"; sim::note_site(b); throw sim::ReadBudgetExceeded{"reads"}; }
+        if (b.bytes > b.max_bytes) { b.tripped = true; b.kind = "bytes"; sim::note_site(b); throw sim::ReadBudgetExceeded{"bytes"}; }
+    }
+    sim::yield_point(sim::Y_READ_PRE);
+    long r = __real__ZNSi8readsomeEPcl(self, s, n);
+    sim::yield_point(sim::Y_READ_POST);
+    return r;
+}
 #endif
